@@ -48,6 +48,7 @@ type Case struct {
 	SSeed   uint64 `json:"sseed,omitempty"`
 	Workers int    `json:"workers,omitempty"`
 	Steps   int    `json:"steps,omitempty"`
+	CloseAt int    `json:"closeat,omitempty"` // stress: the cache is closed after that many operations (0 = at the end)
 }
 
 const nkeys = 6
@@ -1010,7 +1011,7 @@ func stress(c Case) []string {
 	var mu sync.Mutex
 	committed := map[int]map[string]bool{}
 	var problems []string
-	var wcount atomic.Int64
+	var wcount, opcount atomic.Int64
 	var wg sync.WaitGroup
 	root := hx.NewRng(c.SSeed)
 	for g := 0; g < c.Workers; g++ {
@@ -1020,6 +1021,9 @@ func stress(c Case) []string {
 			defer wg.Done()
 			for i := 0; i < c.Steps; i++ {
 				k := r.Intn(nkeys)
+				if c.CloseAt > 0 && opcount.Add(1) == int64(c.CloseAt) {
+					bc.Close() // teardown while readers, writers and persist steps are in flight
+				}
 				if r.Chance(2, 5) {
 					var opts []cache.Option
 					if r.Chance(1, 4) {
@@ -1263,6 +1267,10 @@ func main() {
 		c := Case{Kind: "stress", SSeed: q.U64(), Workers: 8, Steps: 400, DCap: q.Intn(3), FCap: q.Range(1, 2), Sync: q.Bool(), Direct: q.Chance(1, 8), Fadv: q.Chance(1, 4), Ops: []Op{}}
 		if ctx.Tier == "thorough" {
 			c.Workers, c.Steps = 16, 2000
+		}
+		if q.Chance(1, 3) {
+			c.CloseAt = c.Workers * c.Steps * q.Range(4, 8) / 10
+			ctx.Count("stress.close-midway")
 		}
 		run(c)
 	}
